@@ -14,6 +14,7 @@ import (
 	"math/rand/v2"
 	"os"
 	"runtime/debug"
+	"sort"
 	"strconv"
 	"strings"
 	"sync/atomic"
@@ -249,12 +250,17 @@ func c18TopKs(n int) []int {
 	return out
 }
 
+// c18Item is one unit of parallel work: all vectors of length n over alpha that start with prefix.
+// kind "base": every such vector; kinds "ext" and "weird": only vectors that contain at least one symbol
+// beyond the base alphabet (alpha = base ++ additions), so that no vector is enumerated twice.
 type c18Item struct {
-	weird  bool
+	kind   string // "base" | "ext" | "weird"
 	n      int
 	alpha  []float32
 	prefix []int
 }
+
+func (it c18Item) group() string { return fmt.Sprintf("length %d %s", it.n, it.kind) }
 
 type c18Stats struct {
 	evals, calls, groups, nontrivGroups, errOK int64
@@ -397,16 +403,15 @@ func c18RunItem(it c18Item, sub *evid.Run) bool {
 			complete = false
 			break
 		}
-		hasWeird := false
+		beyond := false // does the vector use a symbol beyond the base alphabet?
 		for i, a := range idx {
 			logits[i] = it.alpha[a]
-			if math.IsNaN(float64(logits[i])) || math.IsInf(float64(logits[i]), 1) {
-				hasWeird = true
+			if a >= len(c18Base) {
+				beyond = true
 			}
 		}
-		// the weird sub-run covers exactly the vectors that contain +Inf or NaN; the main run has none
-		if hasWeird == it.weird {
-			c18Vector(sub, w, logits, it.weird, &st)
+		if beyond == (it.kind != "base") {
+			c18Vector(sub, w, logits, it.kind == "weird", &st)
 			sub.Add("vectors", 1)
 		}
 		// odometer over the positions after the prefix (last position fastest)
@@ -487,29 +492,29 @@ func ZZVerifC18() {
 	// would run every few milliseconds on all cores
 	debug.SetGCPercent(20000)
 
-	// bounds: alphabet per vector length (main run) and the +Inf/NaN sub-run
+	// bounds: (kind, max length); "ext" and "weird" enumerate only the vectors that use one of their extra symbols
 	ext := append(append([]float32{}, c18Base...), c18Extra...)
 	weirdAlpha := append(append([]float32{}, c18Base...), c18Weird...)
-	alphaOf := map[int][]float32{1: ext, 2: ext, 3: ext, 4: c18Base, 5: c18Base}
-	maxWeird := 4
+	type phase struct {
+		kind   string
+		lo, hi int
+	}
+	// dispatch order = priority order if the time budget should stop the run
+	phases := []phase{{"base", 1, 5}, {"ext", 1, 3}, {"weird", 1, 4}}
 	budget := 115 * time.Second // ~20 s of work on 16 idle cores; the margin is for a loaded machine
 	if thorough {
-		alphaOf = map[int][]float32{1: ext, 2: ext, 3: ext, 4: ext, 5: ext, 6: c18Base}
-		maxWeird = 5
-		budget = 19 * time.Minute
+		phases = []phase{{"base", 1, 5}, {"ext", 1, 3}, {"weird", 1, 4}, {"base", 6, 6}, {"ext", 4, 5}, {"weird", 5, 5}}
+		budget = 15 * time.Minute // ~5.5 min of work on 16 idle cores
 	}
 	if v, err := strconv.Atoi(os.Getenv("C18_MAXLEN")); err == nil { // debugging aid only
-		for n := range alphaOf {
-			if n > v {
-				delete(alphaOf, n)
-			}
+		for i := range phases {
+			phases[i].hi = min(phases[i].hi, v)
 		}
-		maxWeird = min(maxWeird, v)
 		r.NotExhaustive(fmt.Sprintf("C18_MAXLEN=%d debugging cap", v))
 	}
 	r.SetDeadline(budget)
 
-	r.Rule("every logit vector of length 1..N over the boundary alphabet of its length (see bounds; ordered, with repetition: ties, -Inf, +-3e38, 88, 1 vs 1+2^-23, ...) x temperature x top-k {-1,0,1,2,n,n+1} x top-p x min-p x {6 exact RNG draws r=k/2^24 through a replaced Sampler.rng, 3 seeds through the real NewSampler (two fresh samplers x 8 calls)}; every call goes through the real NewSampler(...).Sample(...). A separate sub-run covers every vector that contains +Inf or NaN with the weak oracle. One evaluation = one (vector, parameters, draw) call or one (vector, parameters, seed) pair of 8-call sequences. Non-trivial = the reference's admissible set is a non-empty proper subset of the vocabulary (filters / arg-max really exclude a token); distinct_nontrivial counts distinct logit vectors (main run only) having such a parameter combination, nontrivial_parameter_groups counts the (vector, parameters) combinations; +Inf/NaN vectors are counted in distinct_weird_vector.")
+	r.Rule("every logit vector (ordered, with repetition) of length 1..base_max_len over the base alphabet (ties, -Inf, +-3e38, 88, 1 vs 1+2^-23) and of length 1..ext_max_len over base+ext symbols (-88, 1e-45, -0, 2^127) x temperature x top-k {-1,0,1,2,n,n+1} x top-p x min-p x {6 exact RNG draws r=k/2^24 through a replaced Sampler.rng, 3 seeds through the real NewSampler (two fresh samplers x 8 calls)}; every call goes through the real NewSampler(...).Sample(...). A separate sub-run covers every vector that contains +Inf or NaN with the weak oracle. One evaluation = one (vector, parameters, draw) call or one (vector, parameters, seed) pair of 8-call sequences. Non-trivial = the reference's admissible set is a non-empty proper subset of the vocabulary (filters / arg-max really exclude a token); distinct_nontrivial counts distinct logit vectors (main run only) having such a parameter combination, nontrivial_parameter_groups counts the (vector, parameters) combinations; +Inf/NaN vectors are counted in distinct_weird_vector.")
 	r.Assume(
 		"admissible set, float64 reference: top-k = tokens whose logit >= the k-th largest (boundary ties all admissible; k<=0 or k>=n keeps all); probabilities = softmax(logit/max(temperature,1e-7)) over that set (1e-7 is the documented temperature floor; it only widens the sets); top-p = shortest descending-probability prefix whose mass exceeds p; min-p = prob >= min_p * max prob; filters compose in the sampler's order",
 		"tolerance: a token is reported as outside top-p / min-p only if it fails for every float32 rounding of logit/temperature and of the subtraction of the maximum (envelope 2^-22*(|z|+|zmax|) on the scaled logits) and then by a further relative margin of 1e-4; near-ties are therefore never judged",
@@ -520,39 +525,30 @@ func ZZVerifC18() {
 		"trusted: math/rand/v2 computes Float32 from the top 32 bits of one source word (checked at start-up), the Go float64 math library")
 
 	var items []c18Item
-	add := func(weird bool, n int, alpha []float32) {
-		pl := n - 2
-		if pl < 0 {
-			pl = 0
-		}
-		var rec func(pre []int)
-		rec = func(pre []int) {
-			if len(pre) == pl {
-				items = append(items, c18Item{weird: weird, n: n, alpha: alpha, prefix: append([]int{}, pre...)})
-				return
+	maxLen := map[string]int{}
+	for _, ph := range phases {
+		alpha := map[string][]float32{"base": c18Base, "ext": ext, "weird": weirdAlpha}[ph.kind]
+		for n := ph.lo; n <= ph.hi; n++ {
+			maxLen[ph.kind] = max(maxLen[ph.kind], n)
+			pl := max(n-2, 0)
+			var rec func(pre []int)
+			rec = func(pre []int) {
+				if len(pre) == pl {
+					items = append(items, c18Item{kind: ph.kind, n: n, alpha: alpha, prefix: append([]int{}, pre...)})
+					return
+				}
+				for a := range alpha {
+					rec(append(pre, a))
+				}
 			}
-			for a := range alpha {
-				rec(append(pre, a))
-			}
-		}
-		rec(nil)
-	}
-	// ascending size: this is also the merge order, so the first recorded witness per signature is the smallest
-	alphaDesc := map[string]any{}
-	for n := 1; n <= c18MaxN; n++ {
-		if al, ok := alphaOf[n]; ok {
-			add(false, n, al)
-			alphaDesc[fmt.Sprintf("length_%d", n)] = c18Fs(al)
-		}
-		if n <= maxWeird {
-			add(true, n, weirdAlpha)
+			rec(nil)
 		}
 	}
 	subs := make([]*evid.Run, len(items))
 	done := make([]bool, len(items))
 	names := make([]string, len(items))
 	for i := range items {
-		names[i] = strconv.Itoa(i) // ascending: if the budget stops the run, everything below a length is complete
+		names[i] = strconv.Itoa(i)
 	}
 	r.Parallel(0, names, func(item string, _ *evid.Run) {
 		i, _ := strconv.Atoi(item)
@@ -560,35 +556,40 @@ func ZZVerifC18() {
 		done[i] = c18RunItem(items[i], s)
 		subs[i] = s
 	})
+	// merge in ascending vector length (evid keeps the first witness per signature, so it is the smallest)
+	order := make([]int, len(items))
+	for i := range order {
+		order[i] = i
+	}
+	sort.SliceStable(order, func(a, b int) bool { return items[order[a]].n < items[order[b]].n })
 	incomplete := map[string]int{}
 	total := map[string]int{}
-	for i, s := range subs {
-		r.Merge(s)
-		key := fmt.Sprintf("length %d", items[i].n)
-		if items[i].weird {
-			key += " (+Inf/NaN sub-run)"
-		}
-		total[key]++
+	for _, i := range order {
+		r.Merge(subs[i])
+		total[items[i].group()]++
 		if !done[i] {
-			incomplete[key]++
+			incomplete[items[i].group()]++
 		}
 	}
 	if len(incomplete) > 0 {
 		b, _ := json.Marshal(incomplete)
 		t, _ := json.Marshal(total)
-		r.NotExhaustive(fmt.Sprintf("time budget %v reached; work items not completed per vector length: %s of %s; all other lengths were covered completely", budget, b, t))
+		r.NotExhaustive(fmt.Sprintf("time budget %v reached; work items not completed per (vector length, alphabet): %s of %s; every group not listed as incomplete was covered completely", budget, b, t))
 	}
 	r.Extra("bounds", map[string]any{
-		"main_alphabet_by_length": alphaDesc,
-		"weird_alphabet":          c18Fs(weirdAlpha),
-		"weird_max_len":           maxWeird,
-		"temperatures":            c18Fs(c18Temps),
-		"top_k":                   "{-1,0,1,2,n,n+1}",
-		"top_p":                   c18Fs(c18TopPs),
-		"min_p":                   c18Fs(c18MinPs),
-		"draws_k_over_2pow24":     c18Draws,
-		"seeds":                   c18Seeds,
-		"calls_per_seeded_case":   2 * c18SeqLen,
+		"base_alphabet":            c18Fs(c18Base),
+		"base_max_len":             maxLen["base"],
+		"ext_additional_symbols":   c18Fs(c18Extra),
+		"ext_max_len":              maxLen["ext"],
+		"weird_additional_symbols": c18Fs(c18Weird),
+		"weird_max_len":            maxLen["weird"],
+		"temperatures":             c18Fs(c18Temps),
+		"top_k":                    "{-1,0,1,2,n,n+1}",
+		"top_p":                    c18Fs(c18TopPs),
+		"min_p":                    c18Fs(c18MinPs),
+		"draws_k_over_2pow24":      c18Draws,
+		"seeds":                    c18Seeds,
+		"calls_per_seeded_case":    2 * c18SeqLen,
 	})
 	r.Finish()
 }
